@@ -515,6 +515,30 @@ def r3_header_table(rep, src):
             rep.ok('C06.R3', M + ':ArMember.' + pub, 'property', 'answers with the %s field of the header' % pub, nontrivial=False)
         else:
             rep.fail('C06.R3', M + ':ArMember.' + pub, 'property', '%s answers %r for a header whose %s field holds %r' % (pub, got_, pub, model[pub][0]))
+    # ... and a header whose name has characters of more than one byte (the fields are columns of BYTES: a name that is shorter in
+    # characters than in bytes moves nothing)
+    name2 = 'caf\u00e9 \u00fcber.x/'
+    raw2 = name2.encode('utf-8')
+    header2 = raw2.ljust(16) + b'1700000001  ' + b'1000  ' + b'1001  ' + b'100644  ' + b'42        ' + b'`\n'
+    if len(header2) == 60:
+        heap2 = H_.Heap(mod, hooks={'.read': lambda it_, a, k: header2, '.tell': lambda it_, a, k: 68, 'sys.getfilesystemencoding': lambda it_, a, k: 'utf-8'})
+        it2 = H_.Interp(heap2)
+        what2 = 'a header whose name has multi-byte characters'
+        try:
+            m2 = it2.call(H_.Closure(f.node, {}, None, f.cls), [heap2.alloc('File', {}, name='@fp'), None], {'encoding': 'utf-8'})
+            got2 = []
+            for pub in ('name', 'mtime', 'owner', 'group', 'size'):
+                v_ = it2.ev(ast.parse('m.%s' % pub, mode='eval').body, {'m': m2}, None)
+                got2.append(v_.concrete() if hasattr(v_, 'concrete') else v_)
+            want2 = [name2[:-1], 1700000001, 1000, 1001, 42]
+            if got2 == want2:
+                rep.ok('C06.R3', f.site, what2, 'name, mtime, owner, group and size as recorded', nontrivial=False)
+            else:
+                rep.fail('C06.R3', f.site, what2, 'the header %r is read as name / mtime / owner / group / size = %r; recorded: %r -- the fields are cut by character, not by byte' % (
+                    header2, got2, want2), where=f.where)
+        except H_.Raised as x_:
+            rep.fail('C06.R3', f.site, what2, 'from_file raises %s (line %d) for the header %r: a name with multi-byte characters shifts the fields when they are cut from decoded text' % (
+                x_.exc, x_.lineno, header2), where=f.where)
     _ = cls
     return dict(func=f, name_paths=name_paths, cut_of=cut_of)
 
